@@ -34,8 +34,18 @@ func expand(g *core.Graph, e ast.Node, depth int) []ast.Node {
 			return true
 		}
 		for _, x := range as {
-			if a, isAs := x.Node.(*ast.AssignStmt); isAs && len(a.Rhs) == 1 && (a.Tok == token.DEFINE || a.Tok == token.ASSIGN) {
+			a, isAs := x.Node.(*ast.AssignStmt)
+			if !isAs || (a.Tok != token.DEFINE && a.Tok != token.ASSIGN) {
+				continue
+			}
+			if len(a.Rhs) == 1 {
 				out = append(out, expand(g, a.Rhs[0], depth-1)...)
+			} else if len(a.Rhs) == len(a.Lhs) { // host, namespace := n.Host(), n.Namespace()
+				for i, l := range a.Lhs {
+					if lid, isL := l.(*ast.Ident); isL && info.ObjectOf(lid) == types.Object(v) {
+						out = append(out, expand(g, a.Rhs[i], depth-1)...)
+					}
+				}
 			}
 		}
 		return true
